@@ -31,7 +31,7 @@ STAT_KEYS = ('sum', 'sumsq', 'gt0', 'gt1', 'ge1')
 
 VALID_FILE = [
     f"all(0 <= {ROW}[leaf] and {ROW}[leaf] < len({F}['n_cells']) for leaf in {ROW})",
-] + [f"implies('{k}' in {F}, {F}['{k}'].shape[0] == len({F}['n_cells']))" for k in STAT_KEYS]
+] + [f"'{k}' not in {F} or {F}['{k}'].shape[0] == len({F}['n_cells'])" for k in STAT_KEYS]
 
 
 def _raw_ensures(res):
@@ -49,13 +49,66 @@ def _raw_ensures(res):
     for k in STAT_KEYS:
         # every stored per-gene statistic of a leaf = row cluster_to_row[leaf] of the stored matrix
         out.append(
-            f"all(implies('{k}' in {F}, '{k}' in {cs}[leaf] and len({cs}[leaf]['{k}']) == {F}['{k}'].shape[1] and "
+            f"all('{k}' not in {F} or ('{k}' in {cs}[leaf] and len({cs}[leaf]['{k}']) == {F}['{k}'].shape[1] and "
             f"all({cs}[leaf]['{k}'][g] == {F}['{k}'][{ROW}[leaf], g] for g in range({F}['{k}'].shape[1]))) "
             f"for leaf in {ROW})")
     return out
 
 
 NAMES6 = ('n_cells',) + STAT_KEYS
+
+_TMP = []
+
+
+def _tmp_dir():
+    import atexit
+    import shutil
+    import tempfile
+    if not _TMP:
+        d = tempfile.mkdtemp(prefix='pyvc_c18_', dir='/tmp')
+        _TMP.append(d)
+        atexit.register(shutil.rmtree, d, ignore_errors=True)
+    return _TMP[0]
+
+
+def write_stats_file(rng, leaves, genes, keys=NAMES6, tree=None):
+    """a statistics file with the layout of _create_empty_stats_file: rows in shuffled order, values
+    that identify (dataset, row, column); returns its path"""
+    import json
+    import os
+    import h5py
+    import numpy as np
+    rows = list(range(len(leaves)))
+    rng.shuffle(rows)
+    path = os.path.join(_tmp_dir(), f"stats_{os.getpid()}_{rng.randrange(10**9)}.h5")
+    with h5py.File(path, 'w') as f:
+        f.create_dataset('col_names', data=json.dumps(list(genes)).encode('utf-8'))
+        f.create_dataset('cluster_to_row', data=json.dumps(dict(zip(leaves, rows))).encode('utf-8'))
+        if tree is not None:
+            f.create_dataset('taxonomy_tree', data=json.dumps(tree).encode('utf-8'))
+        n_cells = np.array([rng.choice([0, 1, 1, 2, 3, 5]) for _ in leaves], dtype=int)
+        f.create_dataset('n_cells', data=n_cells)
+        for q, k in enumerate(STAT_KEYS):
+            if k not in keys:
+                continue
+            if k in ('sum', 'sumsq'):
+                m = np.array([[(q + 1) * 100.0 + 10.0 * r + c + rng.choice([0.0, 0.5, 0.25])
+                               for c in range(len(genes))] for r in range(len(leaves))], dtype=float)
+            else:
+                m = np.array([[rng.randint(0, 9) for c in range(len(genes))] for r in range(len(leaves))], dtype=int)
+            f.create_dataset(k, data=m.reshape(len(leaves), len(genes)))
+    return path
+
+
+def _gen_read_raw(rng, size):
+    leaves = [f"cl{i}" for i in range(rng.randint(1, size + 2))]
+    rng.shuffle(leaves)
+    genes = [f"g{i}" for i in range(rng.randint(1, size + 1))]
+    rng.shuffle(genes)
+    fms = rng.random() < 0.5
+    keys = list(NAMES6) if fms or rng.random() < 0.4 else ['n_cells', 'sum'] + rng.sample(STAT_KEYS[1:], rng.randint(0, 3))
+    return dict(precomputed_stats_path=write_stats_file(rng, leaves, genes, keys), for_marker_selection=fms)
+
 
 
 def _one_of(x, names):
@@ -84,6 +137,7 @@ contract(
     locals=dict(precomputed_stats='C18RawStats', raw_data='C18Raw', this='C18Leaf', in_file='C18File',
                 cluster_stats='Dict[Name,C18Leaf]', row_lookup='Dict[Name,Int]'),
     returns='C18RawStats',
+    native=dict(gen=_gen_read_raw),
     # the dict of arrays read from the file is heterogeneous ('n_cells' is 1-D): case analysis on the key
     ghost=dict(case_split={'if k in in_file': ('k', ['n_cells'])}),
     assumptions=['A-STATSFILE: the open statistics file is a record of its decoded datasets, a function of the path',
@@ -147,8 +201,8 @@ contract(
     SU + 'aggregate_stats',
     properties=['C18'],
     mode='slice', unexpected_exceptions='allowed',
-    tracked=['leaf_population', 'precomputed_stats', 'leaf_node', 'these_stats', 'n_genes', 'sum_arr', 'n_cells',
-             'mu', 'result'],
+    # (the accumulators of 'sumsq' / 'gt0' / 'gt1' / 'ge1' and `var` are outside the slice)
+    tracked=['leaf_population', 'precomputed_stats', 'sum_arr', 'n_cells', 'mu', 'result'],
     params=dict(leaf_population='List[Name]', precomputed_stats='Dict[Name,C18Leaf]'),
     locals=dict(result='C18Node'),
     returns='C18Node',
@@ -159,8 +213,7 @@ contract(
         f"len({L_}) >= 1",
         f"all({L_}[i] in {D_} and 'sum' in {D_}[{L_}[i]] and "
         f"len({D_}[{L_}[i]]['sum']) == len({D_}[{L_}[0]]['sum']) for i in range(len({L_})))",
-    ] + [f"all(implies('{k}' in {D_}[{L_}[i]], len({D_}[{L_}[i]]['{k}']) == len({D_}[{L_}[0]]['sum'])) "
-         f"for i in range(len({L_})))" for k in STAT_KEYS[1:]],
+    ],
     ensures=[
         f"len(result['mean']) == len({D_}[{L_}[0]]['sum'])",
         f"'n_cells' in result and c18_int(result['n_cells']) == {NTOT}",
@@ -169,10 +222,10 @@ contract(
         # a single leaf: its own sum / max(1, n_cells)  (the centroid of that cluster)
         f"implies(len({L_}) == 1, all(result['mean'][g] == {D_}[{L_}[0]]['sum'][g] / max(1, {D_}[{L_}[0]]['n_cells']) "
         "for g in range(len(result['mean']))))",
-        f"mc_same({D_}, old({D_}))",
+        f"same({D_}, old({D_}))",
     ],
     loops={
-        0: [f"n_cells == c18_nsum({D_}, {L_}, _i)", "len(sum_arr) == n_genes",
-            f"all(sum_arr[g] == c18_gsum({D_}, {L_}, _i, g) for g in range(n_genes))"],
+        0: [f"n_cells == c18_nsum({D_}, {L_}, _i)", f"len(sum_arr) == len({D_}[{L_}[0]]['sum'])",
+            f"all(sum_arr[g] == c18_gsum({D_}, {L_}, _i, g) for g in range(len(sum_arr)))"],
     },
 )
